@@ -42,6 +42,8 @@ func runOne(rc *runCtx, w *world, idx int, logger *log.Logger) {
 	if idx >= 1000 {
 		k := corpus[(idx-1000)%len(corpus)]
 		c.script = k.script
+		c.poolScript = k.pool
+		c.noMut = k.noMut
 		last = k.blocks
 		rc.rep.Count("corpus/" + k.name)
 	}
